@@ -112,6 +112,39 @@ static void run_case(CaseCtx& c)
     const PolarGrid& cg = lp.coarse->grid();
     const int nf = fg.numberOfNodes(), ncn = cg.numberOfNodes();
     const Interpolation& I = *lp.interp;
+    // history: in 40% of the cases the same Interpolation object has served another level pair before (the levels are
+    // arguments of every call, so the operators must not remember anything about a pair): same nodes with other
+    // smoother splits (same node count, other numbering), or a different grid altogether
+    int history = rng.coin(0.4) ? rng.range(1, 2) : 0;
+    std::unique_ptr<LevelPair> decoy;
+    if (history) {
+        GridSpec ds = fs;
+        std::optional<double> dsplit;
+        if (history == 2) {
+            GridOpts g2 = go;
+            if (!large) { g2.nr_max = 12; g2.nth_max = 16; }
+            GridSpec dc = gen_grid(rng, g2);
+            ds = refine_midpoint(dc);
+        }
+        int want = rng.range(2, ds.nr() - 3);
+        if (want == fg.numberSmootherCircles())
+            want = want > 2 ? want - 1 : want + 1;
+        set_split(ds, std::min(std::max(want, 2), ds.nr() - 3));
+        int cnr = (ds.nr() + 1) / 2;
+        int nc = rng.range(2, cnr - 3 >= 2 ? cnr - 3 : 2);
+        dsplit = 0.5 * (ds.radii[2 * (nc - 1)] + ds.radii[2 * nc]);
+        decoy = std::make_unique<LevelPair>();
+        decoy->build(ds, dsplit, false, threads, dirbc);
+        const int dnf = decoy->fine->grid().numberOfNodes(), dnc = decoy->coarse->grid().numberOfNodes();
+        Vector<double> xf = random_vector(rng, dnf, 0), xc = random_vector(rng, dnc, 0), of(dnf), oc(dnc);
+        for (ApplyFn fn : {&Interpolation::applyProlongation, &Interpolation::applyProlongation0, &Interpolation::applyExtrapolatedProlongation,
+                           &Interpolation::applyExtrapolatedProlongation0, &Interpolation::applyFMGInterpolation})
+            (I.*fn)(*decoy->coarse, *decoy->fine, of, xc);
+        for (ApplyFn fn : {&Interpolation::applyRestriction, &Interpolation::applyRestriction0, &Interpolation::applyExtrapolatedRestriction,
+                           &Interpolation::applyExtrapolatedRestriction0, &Interpolation::applyInjection})
+            (I.*fn)(*decoy->fine, *decoy->coarse, oc, xf);
+    }
+    c.obs.params.str("history", history == 0 ? "fresh-object" : (history == 1 ? "served-same-nodes-other-split" : "served-other-grid"));
     c.obs.params.i("fine_circles", fg.numberSmootherCircles()).i("coarse_circles", cg.numberSmootherCircles());
     const std::string fl = midpoint ? "midpoint-nested" : "arbitrary";
 
@@ -267,6 +300,7 @@ static void run_case(CaseCtx& c)
     JObj sig;
     sig.str("flavour", fl).str("size", large ? "large" : (nf <= 200 ? "tiny" : (nf <= 1200 ? "small" : "medium")));
     sig.str("fine_split", fs.split_kind).b("coarse_auto", coarse_auto).i("fine_circ_mod2", fg.numberSmootherCircles() % 2).i("threads", threads).str("angular", cs.angular_kind).str("radial", cs.radial_kind);
+    sig.i("object_history", history);
     c.obs.top.obj("sig", sig);
     c.obs.top.b("nontrivial", all_classes);
     c.obs.info.i("fine_nodes", nf).i("coarse_nodes", ncn);
